@@ -415,6 +415,8 @@ def run_kani_property(pid, tier, seed, replay=None):
             print("REPLAY:", "violation reproduced" if ok else ("not reproduced" if ok is False else "inconclusive"))
             return 1 if ok else (0 if ok is False else 2)
         hs = discover(spec, tier)
+        import random
+        random.Random(seed).shuffle(hs)  # VERIF_SEED only changes the order in which harnesses are scheduled
         only = os.environ.get("VERIF_ONLY")  # debugging aid: restrict to harnesses matching a regex
         if only:
             hs = [h for h in hs if re.search(only, h["name"])]
